@@ -108,6 +108,9 @@ func (e *cacheEngine) Execute(t *testing.T, plan *Plan, res *Result) {
 	inflight := 0
 	known := false
 	readTags := map[int]bool{} // values produced by designated readers (SetReadValue)
+	readTagAt := map[int]int64{} // event stamp at which the delivery of such a value completed
+	type rhCall struct{ call, ret int64 }
+	rhCalls := map[cacheKey][]*rhCall{} // GetWithReadHandle calls per block (ret 0 = under way)
 	maxAdded := int64(0)
 	alloc := func(n int) *cache.Value {
 		if int64(n) > maxAdded {
@@ -194,7 +197,20 @@ func (e *cacheEngine) Execute(t *testing.T, plan *Plan, res *Result) {
 							ops = append(ops, porcupine.Operation{ClientId: cl, Input: cacheIn{op: "delete", key: cacheKey{h: k.h, file: k.file, off: o}}, Call: call, Output: cacheOut{}, Return: ret})
 						}
 					default: // GetWithReadHandle
-						v, rh, _, _, hit, err := h.GetWithReadHandle(context.Background(), fn, off, base.MakeLevel(0), cache.CategorySSTableData)
+						ctx := context.Background()
+						if r.IntN(4) == 0 {
+							// an impatient reader: if it has to wait for another task's
+							// read of this block, it gives up after a simulated millisecond
+							var cancel context.CancelFunc
+							ctx, cancel = context.WithTimeout(ctx, time.Millisecond)
+							defer cancel()
+						}
+						me := &rhCall{call: call}
+						rhCalls[k] = append(rhCalls[k], me)
+						v, rh, _, _, hit, err := h.GetWithReadHandle(ctx, fn, off, base.MakeLevel(0), cache.CategorySSTableData)
+						if !rh.Valid() {
+							me.ret = stamp()
+						}
 						switch {
 						case v != nil && !hit:
 							// The value was handed over by the concurrent designated
@@ -207,6 +223,26 @@ func (e *cacheEngine) Execute(t *testing.T, plan *Plan, res *Result) {
 							v.Release()
 							if !readTags[tag] {
 								simrt.Fail("oracle:cache-value", fmt.Sprintf("GetWithReadHandle(%v) waited for a concurrent reader and received value %d, which no reader of that block produced", k, tag))
+							}
+							// ... and produced while this call was waiting: a value that a
+							// reader delivered before this call began is not a concurrent
+							// read's result but a leftover, and the block may have been
+							// deleted or evicted since
+							if at := readTagAt[tag]; at < call {
+								// Legitimate only while some other reader of this block that
+								// was already under way when this call began is still inside
+								// its call: it keeps the shared read entry alive. Otherwise
+								// the entry should have been dropped with its last reader.
+								alive := false
+								for _, w := range rhCalls[k] {
+									if w.call < call && (w.ret == 0 || w.ret > call) {
+										alive = true
+									}
+								}
+								if !alive {
+									simrt.Fail("oracle:cache-value", fmt.Sprintf("GetWithReadHandle(%v) reported a miss served by a concurrent reader, but the value it returned (%d) had been delivered at event %d, before this call began at event %d, and no other reader of the block was still under way then: a stale read entry outlived its readers", k, tag, at, call))
+								}
+								res.Stats["probe.cache_late_joiner"]++
 							}
 							res.Stats["probe.cache_shared_value"]++
 						case err != nil:
@@ -227,17 +263,26 @@ func (e *cacheEngine) Execute(t *testing.T, plan *Plan, res *Result) {
 							for y := 0; y < r.IntN(4); y++ {
 								simrt.YieldNow("read")
 							}
+							if r.IntN(3) == 0 {
+								// a slow read: simulated time passes, impatient waiters give up
+								simrt.Sleep(2 * time.Millisecond)
+								res.Stats["probe.cache_slow_read"]++
+							}
 							call2 := stamp()
 							if r.IntN(5) == 0 {
 								rh.SetReadError(errors.New("injected read error"))
+								me.ret = stamp()
 								res.Stats["probe.cache_read_error"]++
 							} else {
 								nextTag++
 								tag := nextTag
 								nv := alloc(16 + r.IntN(c.ValMax))
 								readTags[tag] = true
+								readTagAt[tag] = 1 << 60 // delivery in progress
 								fillVal(nv.RawBuffer(), k, tag)
 								rh.SetReadValue(nv)
+								readTagAt[tag] = stamp() // delivery complete
+								me.ret = readTagAt[tag]
 								nv.Release()
 								record(cl, cacheIn{op: "set", key: k, tag: tag}, call2, cacheOut{})
 								res.Stats["probe.cache_read_value"]++
